@@ -52,7 +52,7 @@ def kernel_case(h, sa, sb, sc):
 
 # ---- (3) hashmap histories
 def keypool(g):
-    return [('k_sym', g.hf([0, 2])), ('k_negzero', B('*', N(0), N(-1))), ('k_zero', N(0)), ('k_str', ('str', b'a')), ('k_STR', ('str', b'A')), ('k_arr', V('_ak')), ('k_arrlit', ('arr', [N(1), ('str', b'x')])), ('k_true', ('bool', True)), ('k_nested', ('arr', [('arr', [N(1)]), N(2)]))]
+    return [('k_sym', g.hf([0, 2])), ('k_negzero', B('*', N(0), N(-1))), ('k_zero', N(0)), ('k_str', ('str', b'a')), ('k_STR', ('str', b'A')), ('k_arr', V('_ak')), ('k_arrlit', ('arr', [N(1), ('str', b'x')])), ('k_true', ('bool', True)), ('k_nested', ('arr', [('arr', [N(1)]), N(2)])), ('k_nestedobj', V('_nk'))]
 def observe():
     probes = [N(0), N(1), N(2), ('str', b'a'), ('str', b'A'), ('arr', [N(1), ('str', b'x')]), ('arr', [N(1), ('str', b'x'), N(9)]), ('bool', True), ('arr', [('arr', [N(1)]), N(2)])]
     out = [T(('un', 'count', V('_h'))), T(('un', 'keys', V('_h')))]
@@ -62,9 +62,9 @@ def hist_case(h, length, fixed=None, quickkeys=None):
     def case():
         g = G()
         pool = keypool(g)
-        stmts = [('private', '_ak', ('arr', [N(1), ('str', b'x')])), ('private', '_h', ('nul', 'createHashMap'))]
+        stmts = [('private', '_ak', ('arr', [N(1), ('str', b'x')])), ('private', '_nk', ('arr', [('arr', [N(1)]), N(2)])), ('private', '_h', ('nul', 'createHashMap'))]
         names = []
-        nops = 6
+        nops = 7
         for step in range(length):
             if fixed: op, ki = fixed[step]
             else:
@@ -76,6 +76,7 @@ def hist_case(h, length, fixed=None, quickkeys=None):
             elif op == 2: stmts.append(T(('arr', [B('deleteat', V('_h'), k)]))); names.append('deleteAt ' + kn)
             elif op == 3: stmts.append(T(B('in', k, V('_h')))); names.append('in ' + kn)
             elif op == 4: stmts.append(('assign', '_unused', B('pushback', V('_ak'), N(9)))); names.append('mutate array key object')
+            elif op == 6: stmts.append(('assign', '_unused', B('pushback', B('select', V('_nk'), N(0)), N(9)))); names.append('mutate the array nested inside the array key object')
             elif op == 5: stmts += [('private', '_c', ('un', '+', V('_h'))), T(('arr', [B('set', V('_c'), ('arr', [k, N(500 + step)]))])), T(('un', 'count', V('_c')))]; names.append('copy, set %s in copy' % kn)
         stmts += observe()
         p = Prog(stmts, g.f, g.b)
@@ -116,8 +117,8 @@ def run(ctx):
     if ob: obs.append(ob)
     # (3)
     L = 2 if tier == 'quick' else 3
-    fixed = {'keymut': [(0, 5), (4, 0), (1, 6)], 'negzero': [(0, 2), (0, 1), (2, 1)], 'copy': [(0, 3), (5, 4), (2, 3)], 'sym': [(0, 0), (0, 2), (2, 0)], 'nested': [(0, 8), (0, 6), (2, 8)]}
-    cases = [('hist.len%d' % L, hist_case(h, L, None, [0, 1, 2, 3, 5, 6] if tier == 'quick' else None))] + [('hist.' + k, hist_case(h, len(v), v)) for k, v in fixed.items()]
+    fixed = {'keymut': [(0, 5), (4, 0), (1, 6)], 'keymut.nested': [(0, 9), (6, 0), (1, 8)], 'keymut.nested.del': [(0, 9), (6, 0), (2, 8)], 'negzero': [(0, 2), (0, 1), (2, 1)], 'copy': [(0, 3), (5, 4), (2, 3)], 'sym': [(0, 0), (0, 2), (2, 0)], 'nested': [(0, 8), (0, 6), (2, 8)]}
+    cases = [('hist.len%d' % L, hist_case(h, L, None, [0, 1, 2, 3, 5, 6, 9] if tier == 'quick' else None))] + [('hist.' + k, hist_case(h, len(v), v)) for k, v in fixed.items()]
     def key(cid, v, rr):
         for x in rr.get('violations', []):
             if x['msg'] == v['msg'] and x.get('cls'): return 'hashmap.hist:' + x['cls'].replace(' ', '_')[:100]
@@ -129,7 +130,7 @@ def run(ctx):
                 holes = ['f%d=%08x' % (int(k[2:]), val['f32bits']) for k, val in inp.items() if k.startswith('hf') and isinstance(val, dict)]
                 return dict(kind='vm', op='run', ops=vmh.OPS_DEFAULT, pp=0, hex=x['prog'].encode('latin1').hex(), holes=holes, expect_traces=None, hist=x.get('hist'))
         return None
-    r = oblig.run('hashmap.hist', cases, ctx, funcs, 'all histories of %d operations from {set, get, deleteAt, in, mutate the array used as key, copy-and-set} over 9 keys (symbolic scalar in {0,1,2}, -0, 0, "a", "A", an array object, an equal array literal, true, a nested array), followed by count, keys and get/in probes of 9 values; 5 fixed 3-step histories' % L,
+    r = oblig.run('hashmap.hist', cases, ctx, funcs, 'all histories of %d operations from {set, get, deleteAt, in, mutate the array used as key, mutate an array nested inside the key, copy-and-set} over 10 keys (symbolic scalar in {0,1,2}, -0, 0, "a", "A", an array object, an equal array literal, true, a nested array literal, a nested array object), followed by count, keys and get/in probes of 9 values; 5 fixed 3-step histories' % L,
                   assumptions=['reference: association list keyed by isEqualTo, keys deep-copied at insertion (lib/sqfref.py)', 'allocation failure is out of scope'], case_timeout=1800, keyfn=key, replayfn=rep, step_limit=2_000_000_000,
                   sample_fn=lambda rr: dict(history=rr.get('text')) if rr.get('text') else None)
     if r:
